@@ -3,7 +3,6 @@
 package wsflate
 
 import (
-	"io"
 	"net/url"
 
 	"github.com/gobwas/httphead"
@@ -13,39 +12,15 @@ import (
 // vPeer: the client's connection; on the first Read it runs the library's Upgrader on the
 // bytes the Dialer wrote (sequential composition of the two real peers).
 type vPeer struct {
-	req      []byte
-	resp     []byte
-	pos      int
-	started  bool
-	up       *ws.Upgrader
-	srvHS    ws.Handshake
-	srvErr   error
-	chunk    int // transport chunk size for both directions (0 = unlimited)
+	req     []byte
+	resp    []byte
+	pos     int
+	started bool
+	up      *ws.Upgrader
+	srvHS   ws.Handshake
+	srvErr  error
+	chunk   int // transport chunk size for both directions (0 = unlimited)
 }
-
-type vHalf struct {
-	in    []byte
-	pos   int
-	out   []byte
-	chunk int
-}
-
-func (h *vHalf) Read(p []byte) (int, error) {
-	if h.pos >= len(h.in) {
-		return 0, io.EOF
-	}
-	n := len(h.in) - h.pos
-	if n > len(p) {
-		n = len(p)
-	}
-	if h.chunk > 0 && n > h.chunk {
-		n = h.chunk
-	}
-	copy(p, h.in[h.pos:h.pos+n])
-	h.pos += n
-	return n, nil
-}
-func (h *vHalf) Write(p []byte) (int, error) { h.out = append(h.out, p...); return len(p), nil }
 
 func (c *vPeer) Write(p []byte) (int, error) { c.req = append(c.req, p...); return len(p), nil }
 func (c *vPeer) Read(p []byte) (int, error) {
@@ -59,18 +34,6 @@ func (c *vPeer) Read(p []byte) (int, error) {
 	n, err := h.Read(p)
 	c.pos = h.pos
 	return n, err
-}
-
-func vOptsEqual(a, b []httphead.Option) bool {
-	if len(a) != len(b) {
-		return false
-	}
-	for i := range a {
-		if !a[i].Equal(b[i]) {
-			return false
-		}
-	}
-	return true
 }
 
 // C11_peers_agree: the library's Dialer against the library's Upgrader: both succeed with the
